@@ -410,10 +410,10 @@ theorem step_showInv {env : Env} (hv : env.v.fixReturn = true) (hinj : HashInj e
   | create r => exact createAt_showInv hv hinj hb hs r _ _
   | pull t reg served =>
     refine showInv_of hs (fun n m hm => ?_)
-    by_cases hn : n = resolveName env st ch.ord1 t
+    by_cases hn : n = pullTarget env (resolveName env st ch.ord1 t)
     · subst hn
       simp only [step] at hm
-      rcases pullAt_mans env st (resolveName env st ch.ord1 t) reg served with h | ⟨m0, hreg, h⟩
+      rcases pullAt_mans env st (pullTarget env (resolveName env st ch.ord1 t)) reg served with h | ⟨m0, hreg, h⟩
       · exact Or.inl (by rw [← man_congr h _]; exact hm)
       · unfold Store.man at hm
         rw [h, aget_aset] at hm
